@@ -185,13 +185,16 @@ impl Report {
             if *n > 1 || replay_paths.len() >= 40 {
                 continue;
             }
+            let plain = std::env::var("VERIF_BUILD").map(|b| b == "plain").unwrap_or(false);
             let fname = format!(
-                "{}/{}-{}.json",
+                "{}/{}{}-{}.json",
                 dir,
+                if plain { "plain-" } else { "" },
                 self.tier,
                 sanitize(&v.key).chars().take(80).collect::<String>()
             );
-            let body = json!({"property": self.prop, "key": v.key, "detail": v.detail, "case": v.case});
+            // verif_build tells ./check --replay which of the two harness binaries reproduces the case
+            let body = json!({"property": self.prop, "key": v.key, "detail": v.detail, "case": v.case, "verif_build": if plain { "plain" } else { "checked" }});
             let _ = std::fs::write(&fname, serde_json::to_vec_pretty(&body).unwrap());
             replay_paths.push((v.key.clone(), v.detail.clone(), fname));
         }
@@ -212,6 +215,20 @@ impl Report {
         coverage.insert("counters".into(), json!(counters));
         for (k, v) in self.extra.lock().unwrap().iter() {
             coverage.insert(k.clone(), v.clone());
+        }
+        // the summary of the preceding run of the same check in the second harness binary (library compiled without
+        // debug assertions and overflow checks, as release builds of users are), handed over by ./check
+        if let Ok(p) = std::env::var("VERIF_PLAIN_SUMMARY") {
+            if let Ok(Ok(pv)) = std::fs::read(&p).map(|b| serde_json::from_slice::<Value>(&b)) {
+                coverage.insert(
+                    "second_build_without_debug_assertions".into(),
+                    json!({
+                        "what": "the same check, same tier, run first in a second harness binary in which the library under test is compiled with debug-assertions and overflow-checks off (profile 'plain'); a violation there fails the check as well",
+                        "evaluations": pv["coverage"]["evaluations"], "distinct_nontrivial": pv["coverage"]["distinct_nontrivial"],
+                        "violations": pv["violations"], "violation_keys": pv["coverage"]["violation_keys"], "wall_s": pv["wall_s"],
+                    }),
+                );
+            }
         }
         coverage.insert(
             "known_findings_hit".into(),
